@@ -300,6 +300,10 @@ def gen_orderbook(rng, g, name, node, n_orders=None, full_exec=False, price_leve
         o['start'].append(str(s)); o['end'].append(str(e))
         o['capa'].append(r2(pick(rng, [-3., -1., 0., 1., 2., 5.])))
         o['price'].append(r2(price_level + rng.normal(0, 6)))
+    if rng.random() < 0.5 and len(o['start']) > 1:
+        # orders listed in the order of their delivery start (as an exchange order book would be): the last orders are the latest ones
+        idx = sorted(range(len(o['start'])), key=lambda i: o['start'][i])
+        o = {k: [v[i] for i in idx] for k, v in o.items()}
     return {'type': 'OrderBook', 'name': name, 'nodes': [node], 'orders': o, 'full_exec': bool(full_exec), 'wacc': pick(rng, [0., 0., 0.1])}
 
 
@@ -438,7 +442,7 @@ ALL_KINDS = ('contract', 'transport', 'storage', 'multi', 'orderbook', 'plant', 
              'storage_mip', 'storage_blocks')
 
 
-def gen_mixed_portfolio(rng, kinds=ALL_KINDS, g=None, n_assets=(2, 6), n_nodes=(1, 3), grid_kw=None, window=True, mip_ok=True):
+def gen_mixed_portfolio(rng, kinds=ALL_KINDS, g=None, n_assets=(2, 6), n_nodes=(1, 3), grid_kw=None, window=True, mip_ok=True, campaign=True):
     grid_kw = dict(grid_kw or {})
     need_sub = any(k in kinds for k in ('coarse', 'periodic'))
     g = g or gen_grid(rng, **grid_kw)
@@ -539,9 +543,27 @@ def gen_mixed_portfolio(rng, kinds=ALL_KINDS, g=None, n_assets=(2, 6), n_nodes=(
             assets.append(a)
         else:
             assets.append(gen_contract(rng, g, 'c%d' % j, pick(rng, nodes), f, key, window=window))
+    if campaign and rng.random() < 0.25 and T >= 8:
+        # a 'campaign' node: every asset attached to it is windowed, with a break in the middle of the horizon (no dispatch variable there at all)
+        pts = grid_points(g)
+        i1 = int(rng.integers(1, T // 2 - 1)) if T // 2 - 1 > 1 else 1
+        i2 = int(rng.integers(T // 2 + 1, T - 1))
+        w1 = (None if rng.random() < 0.5 else naive_str(pts[0]), naive_str(pts[i1])); w2 = (naive_str(pts[i2]), None if rng.random() < 0.5 else g['end'])
+        if all(local_ok(x, g.get('tz')) for x in w1 + w2 if x is not None):
+            pk.append('pcamp')
+            for q, (ws, we) in enumerate((w1, w2)):
+                assets.append({'type': 'SimpleContract', 'name': 'camp_mkt%d' % q, 'nodes': ['camp'], 'price': 'pcamp', 'min_cap': -30. * f, 'max_cap': 30. * f, 'extra_costs': 0.2,
+                               'start': ws, 'end': we, 'wacc': 0.})
+                assets.append({'type': 'Transport', 'name': 'camp_link%d' % q, 'nodes': [nodes[0], 'camp'] if q == 0 else ['camp', nodes[0]], 'min_cap': 0., 'max_cap': 2. * f,
+                               'efficiency': pick(rng, [1., 0.9]), 'costs_const': 0.1, 'start': ws, 'end': we, 'wacc': 0.})
     if rng.random() < 0.6:
         perm = rng.permutation(len(assets))
         assets = [assets[int(i)] for i in perm]
+    if rng.random() < 0.4:
+        # order book as the last asset (its trailing orders may have no step in the horizon / in a split interval)
+        obs = [a for a in assets if a['type'] == 'OrderBook']
+        if obs:
+            assets = [a for a in assets if a is not obs[-1]] + [obs[-1]]
     return {'grid': g, 'assets': assets, 'prices': gen_prices(rng, T, sorted(set(pk)))}
 
 
